@@ -38,7 +38,10 @@ import (
 	banktypes "github.com/cosmos/cosmos-sdk/x/bank/types"
 	minttypes "github.com/cosmos/cosmos-sdk/x/mint/types"
 	"github.com/ethereum/go-ethereum/common"
+	ethtypes "github.com/ethereum/go-ethereum/core/types"
+	corevm "github.com/ethereum/go-ethereum/core/vm"
 	"github.com/ethereum/go-ethereum/crypto"
+	"github.com/ethereum/go-ethereum/params"
 	"github.com/stretchr/testify/require"
 
 	"github.com/EscanBE/evermint/v12/constants"
@@ -192,6 +195,21 @@ func TestEngineReexec(t *testing.T) {
 	vestEnd := reexecT0().Add(365 * 24 * time.Hour).Unix()
 	if v := os.Getenv("VERIF_VEST_END"); v != "" {
 		vestEnd, _ = strconv.ParseInt(v, 10, 64)
+	}
+	{ // directed: on the fresh chain (one custom precompile: the appended list fits the spare capacity of go-ethereum's
+		// package-level precompile list) one message is executed, without commit; the shared list must be as it was
+		from, to := s.WalletAccounts[1].GetEthAddress(), s.WalletAccounts[2].GetEthAddress()
+		msg := ethtypes.NewMessage(from, &to, 0, big.NewInt(1), 100000, big.NewInt(2_000_000_000_000), big.NewInt(2_000_000_000_000), big.NewInt(0), nil, nil, true)
+		_, err := s.ChainApp.EvmKeeper().ApplyMessage(s.CurrentContext, msg, evmtypes.NewNoOpTracer(), false)
+		require.NoError(t, err)
+		pre := corevm.ActivePrecompiles(params.Rules{IsBerlin: true})
+		for i, a := range pre[:cap(pre)][len(pre):] {
+			if a != (common.Address{}) {
+				p.Oracle("C01-shared-precompile-list-written", "after executing one message on a fresh chain the spare capacity of the EVM package's shared precompile address list (len %d, cap %d) holds %s at offset %d: transaction execution appends to a slice that every goroutine of the process shares", len(pre), cap(pre), a.Hex(), i)
+				break
+			}
+		}
+		p.Count("shared-precompile-list-probe")
 	}
 	A, B := newTwin(t, s, "A"), newTwin(t, s, "B")
 	fx := A.setup(t, s, vestEnd)
@@ -391,6 +409,20 @@ func TestEngineReexec(t *testing.T) {
 		if !bytes.Equal(hashA, hashB) {
 			p.Oracle("C01-apphash", "block %d: app hash differs between two executions of the same history (%x vs %x)", h, hashA, hashB)
 		}
+		// process-wide state written by transaction execution: the precompile address lists of the EVM package are shared by
+		// every execution of the process (block execution, mempool checks, JSON-RPC calls run on different goroutines); a
+		// transaction that writes into their spare capacity makes the warm set of one execution depend on what another
+		// goroutine is doing at that moment (goroutine scheduling)
+		for _, rules := range []params.Rules{{IsBerlin: true}, {IsIstanbul: true}, {IsByzantium: true}, {}} {
+			pre := corevm.ActivePrecompiles(rules)
+			for i, a := range pre[:cap(pre)][len(pre):] {
+				if a != (common.Address{}) || i < 0 {
+					p.Oracle("C01-shared-precompile-list-written", "block %d: after executing the block the spare capacity of the EVM package's shared precompile address list (len %d, cap %d) holds %s at offset %d: transaction execution appends to a slice that every goroutine of the process shares", h, len(pre), cap(pre), a.Hex(), i)
+					break
+				}
+			}
+		}
+		p.Count("shared-precompile-list-checked")
 		if !bytes.Equal(bzA, bzB) {
 			where := "block events / updates"
 			for i := range resA.TxResults {
